@@ -274,7 +274,7 @@ func (e *Engine) atoms() []*Atom {
 var EditKinds = []string{
 	"src-content", "src-content", "src-touch", "src-rewrite-same", "src-rewrite-rename", "dir-add", "dir-del", "dir-rename",
 	"src-delete", "src-restore", "subdir-rename", "atom-lit", "atom-lit", "atom-lit", "atom-default", "tgt-extra", "comment", "comment", "docstring", "dep-add", "dep-remove", "tgt-add",
-	"tgt-remove", "output-delete", "flag", "const-add", "src-revert", "src-revert", "atom-revert",
+	"tgt-remove", "output-delete", "flag", "const-add", "src-revert", "src-revert", "atom-revert", "src-stealth", "src-stealth",
 }
 
 // Edit applies one random edit of the given kind ("" = random). It returns false if the
@@ -301,6 +301,34 @@ func (e *Engine) Edit(kind string) bool {
 			e.relevant(t.Label())
 		}
 		e.step("edit", "src-content "+rel)
+	case "src-stealth":
+		// the content of a source changes while its size and its modification time stay what they were (cp -p, rsync -t,
+		// tar x with normalised times): only the content hash can tell
+		srcs := e.sortedSrcs()
+		rel := srcs[r.IntN(len(srcs))]
+		full := filepath.Join(root, rel)
+		st, err := os.Stat(full)
+		old := e.P.Srcs[rel]
+		if err != nil || e.P.Missing[rel] || len(old) == 0 {
+			return false
+		}
+		b := []byte(old)
+		i := r.IntN(len(b))
+		if b[i] == '\n' {
+			i = 0
+		}
+		nb := byte('a' + r.IntN(26))
+		for nb == b[i] {
+			nb = byte('a' + r.IntN(26))
+		}
+		b[i] = nb
+		e.P.Srcs[rel] = string(b)
+		os.WriteFile(full, b, 0o644)
+		os.Chtimes(full, st.ModTime(), st.ModTime())
+		for _, t := range e.srcTargets(rel) {
+			e.relevant(t.Label())
+		}
+		e.step("edit", "src-stealth "+rel+" (same size, same mtime)")
 	case "src-revert":
 		// a source file gets back the content it had before its last edit (A -> B -> A)
 		var cands []string
